@@ -98,8 +98,58 @@ def run(ctx):
     ok = len(rm) == 1 and not (set(ys_orig) & g.reach([b for (b, l) in g.succ[rm[0].id] if l == "F"], avoid=[inner[0]], include_src=True))
     ctx.check("line-kinds", where, ok, "a removed line is consumed but not yielded")
 
+    # ---- every serialised hunk line terminates itself (K8 table by abstract evaluation) ------------------------
+    from ..absint import Interp, Obj, Opaque, Raised, Unsupported
+
+    NO_NL = b"\\ No newline at end of file\n"
+    fg2 = repo.func(PF, "HunkLine.get_str")
+    it = Interp(name_hook=lambda n: NO_NL if n == "NO_NL" else NotImplemented, attr_hook=lambda o, a: NotImplemented)
+    for contents, want in ((b"x\n", b"-x\n"), (b"x", b"-x\n" + NO_NL), (b"", b"-\n" + NO_NL)):
+        me = Obj("line")
+        me.set("contents", contents)
+        try:
+            got = it.call(fg2, {"self": me, "leadchar": b"-"})
+        except (Raised, Unsupported) as e_:
+            got = f"<{type(e_).__name__}: {e_}>"
+        ctx.check("line-self-terminating", f"{PF}:HunkLine.get_str", got == want, f"get_str(b'-') of contents {contents!r} is {want!r}: the line ends with a newline, an unterminated line carries its own no-newline marker", construct=repr(got)[:80], message=f"HunkLine.get_str serialises contents {contents!r} as {got!r}, expected {want!r}: an unterminated line that is not the last of its hunk is glued to the next line when the hunk is re-serialised, and the result no longer parses to the same hunks")
+    # ---- the writer's hunk header uses the positions the patcher assumes: start+1, length — also for empty ranges --
+    DF = "breezy/diff.py"
+    fu = repo.func(DF, "unified_diff_bytes")
+    hdr = [y for y in ast.walk(fu) if isinstance(y, ast.Yield) and isinstance(y.value, ast.BinOp) and isinstance(y.value.op, ast.Mod) and isinstance(y.value.left, ast.Constant) and isinstance(y.value.left.value, bytes) and y.value.left.value.startswith(b"@@ -")]
+    ctx.require(len(hdr) == 1, f"{DF}:unified_diff_bytes: hunk header yield not found")
+    dmod = repo.module(DF)
+
+    def hook(interp, call, name, ev_args, env):
+        if name and name.isidentifier() and dmod.get(name) is not None and isinstance(dmod.get(name), ast.FunctionDef):
+            f_ = dmod.get(name)
+            args, kw = ev_args()
+            return interp.call(f_, dict(zip([a.arg for a in f_.args.args], args), **kw))
+        return NotImplemented
+
+    it2 = Interp(call_hook=hook)
+    bad = []
+    n_rows = 0
+    try:
+        for i1 in range(0, 3):
+            for ln_a in range(0, 3):
+                for j1 in range(0, 3):
+                    for ln_b in range(0, 3):
+                        env = {"i1": i1, "i2": i1 + ln_a, "j1": j1, "j2": j1 + ln_b, "lineterm": b"\n"}
+                        got = it2.expr(hdr[0].value, env)
+                        want = b"@@ -%d,%d +%d,%d @@\n" % (i1 + 1, ln_a, j1 + 1, ln_b)
+                        n_rows += 1
+                        if got != want:
+                            bad.append((env["i1"], env["i2"], env["j1"], env["j2"], got))
+    except (Raised, Unsupported) as e_:
+        from ..index import AnalysisError
+
+        raise AnalysisError(f"{DF}:unified_diff_bytes: header expression not evaluable: {e_}")
+    ctx.fact(n_rows)
+    ctx.check("header-positions", f"{DF}:unified_diff_bytes", not bad, f"the hunk header is '@@ -<i1+1>,<len> +<j1+1>,<len> @@' for all {n_rows} tabled ranges, empty ones included (iter_patched_from_hunks copies lines while line_no < orig_pos: an insertion is placed after orig_pos-1 lines)", construct=str(bad[:3]), message=f"the writer anchors ranges differently from what the patcher assumes, e.g. (i1, i2, j1, j2, header) = {bad[:2]}: a pure insertion hunk that is not at the top of the file is applied one line too early, without any conflict")
 
 MUTANTS = [
+    Mutant("no-newline marker only for the tail of a hunk", PF, "        terminator = b\"\\n\" + NO_NL if not self.contents.endswith(b\"\\n\") else b\"\"\n        return leadchar + self.contents + terminator", "        return leadchar + self.contents", expect="line-self-terminating"),
+    Mutant("empty ranges anchored at the previous line", "breezy/diff.py", "(i1 + 1, i2 - i1, j1 + 1, j2 - j1, lineterm)", "(i1 + 1 if i2 > i1 else i1, i2 - i1, j1 + 1 if j2 > j1 else j1, j2 - j1, lineterm)", expect="header-positions"),
     Mutant("original line yielded before the comparison", PF, "                orig_line = next(orig_lines)\n                if orig_line != hunk_line.contents:\n                    raise PatchConflict(line_no, orig_line, b\"\".join(seen_patch))\n                if isinstance(hunk_line, ContextLine):\n                    yield orig_line\n", "                orig_line = next(orig_lines)\n                if isinstance(hunk_line, ContextLine):\n                    yield orig_line\n                if orig_line != hunk_line.contents:\n                    raise PatchConflict(line_no, orig_line, b\"\".join(seen_patch))\n", expect="compare-before-yield"),
     Mutant("writer lead character changed", PF, "        return self.get_str(b\"+\")", "        return self.get_str(b\"*\")", expect="lead-characters"),
     Mutant("mismatch only skipped", PF, "                if orig_line != hunk_line.contents:\n                    raise PatchConflict(line_no, orig_line, b\"\".join(seen_patch))\n", "                if orig_line != hunk_line.contents:\n                    continue\n", expect="mismatch-raises"),
